@@ -4,7 +4,7 @@
    imports; [extracted_letters] / [extracted_var_formats] = vargenerator.go. *)
 From ACV Require Import Base.Strs Model.Report Model.Names Model.Dnf Model.Escape Model.TemplatesRef.
 From ACV Require Import Proofs.ReportProofs Proofs.NamesProofs Proofs.DnfFuel Proofs.EscapeProofs Extracted.NameFacts Extracted.Templates.
-From ACV Require Import Model.PathGrammar Model.PathSem Model.PathGen Proofs.PathGenProofs.
+From ACV Require Import Model.PathGrammar Model.PathSem Model.PathGen Proofs.PathGenProofs Model.RuleGen Proofs.RuleGenProofs.
 Local Open Scope string_scope.
 
 (* ties: the variable alphabet and the name formats are the modelled ones; the snippets that use the names *)
@@ -103,6 +103,40 @@ Theorem C07_path_rule_example :
       "x_0 = nodes_tmp2[_]"; "nodes = x_0"]]%string.
 Proof. exact path_clauses_example. Qed.
 
+(* whole rules (Model/RuleGen.v: the text of a top-level rule - target class, the lines of every constraint of the branch each
+   followed by its trace binding, the message bindings, the matches binding - compared line by line with the real module in the
+   run): the body is safe for EVERY branch of well-scoped constraint snippets, any number of message placeholders, any names;
+   the count / length, pattern and datatype snippets are well-scoped, whatever their parameters *)
+Theorem C07_rule_bodies_are_safe : forall x branch m, Forall (ok x) branch -> safe_from [] (rule_du x branch m) = true.
+Proof. exact rule_safe. Qed.
+Theorem C07_snippets_are_well_scoped : forall x src rule n,
+  (forall pv neg cond k cid tp, ok x (count_snippet x src rule n pv neg cond k cid tp))
+  /\ (forall neg lit shown tp, ok x (pattern_snippet x src rule n neg lit shown tp))
+  /\ (forall neg dt tp, ok x (datatype_snippet x src rule n neg dt tp)).
+Proof.
+  intros x src rule n. split; [|split]; intros.
+  - apply count_snippet_ok.
+  - apply pattern_snippet_ok.
+  - apply datatype_snippet_ok.
+Qed.
+Theorem C07_rule_text_example :
+  rule_lines "violation" "x" "http://example.org/ns#T" "v"
+    [count_snippet "x" "ex.a / ex.b" "gen_path_set_rule_2" 1 true false "<=" 3 "maxLength" "http://example.org/ns#a / http://example.org/ns#b"]
+    ["http://example.org/ns#a"] "m %v"
+  = ["violation[matches] {";
+     "  target_class[x] with data.class as ""http://example.org/ns#T""";
+     "  #  querying path: ex.a / ex.b";
+     "  gen_propValues_1 = gen_path_set_rule_2 with data.sourceNode as x";
+     "  gen_propValues_1_elem = gen_propValues_1[_]";
+     "  not count(gen_propValues_1_elem) <= 3";
+     "  _result_0 := trace(""maxLength"",""http://example.org/ns#a / http://example.org/ns#b"",x,{""@type"": [""reportSchema:TraceValueNode"", ""validation:TraceValue""], ""negated"":false,""condition"":""<="",""actual"": count(gen_propValues_1_elem),""expected"": 3})";
+     "  msg_var_0 := object.get(x, ""http://example.org/ns#a"", ""null"")";
+     "  message_vars := [msg_var_0]";
+     "  message := sprintf(""m %v"", message_vars)";
+     "  matches := error(""v"",x, message ,[_result_0])";
+     "}"]%string.
+Proof. exact rule_lines_example. Qed.
+
 Print Assumptions C07_tie_letters.
 Print Assumptions C07_tie_templates.
 Print Assumptions C07_keywords_plain.
@@ -128,3 +162,6 @@ Print Assumptions C07_path_rules_are_safe.
 Print Assumptions C07_path_rules_bind_nodes.
 Print Assumptions C07_path_rule_example.
 Print Assumptions C07_path_step_variables_bound_once.
+Print Assumptions C07_rule_bodies_are_safe.
+Print Assumptions C07_snippets_are_well_scoped.
+Print Assumptions C07_rule_text_example.
